@@ -7,6 +7,29 @@ ROOT = os.path.dirname(os.path.dirname(os.path.abspath(__file__)))
 ALL = ['C%02d' % i for i in range(1, 21)]
 
 CHECKS = {
+    'C13': dict(
+        text='Lean 4 theorems over ALL layouts of the topology model (Model/Topology.lean: Domain.join, get_boundary, '
+             'get_subdomain, get_shared_corners, MappedDomain, transcribed branch for branch with the exceptions of the real '
+             'code): join_partition (any number of n-cube patches of any dimension, any connection list meeting the decidable '
+             'hypotheses "no face used twice, no ordered patch pair declared twice": interiors = patches and external boundary '
+             '++ interface sides is a permutation of the duplicate-free list of all faces), join_declared (connectivity = declared '
+             'connections entry by entry with names, sides and orientation defaults), join_order_invariant, grid_connections_ok / '
+             'grid_partition (every grid or chain in 1D-3D, any periodic closure, any orientations, any selection and order of its '
+             'geometric connections satisfies the hypotheses and join succeeds), logical_mirror (logical domain = image under '
+             '"strip the mapping", interface by interface in order, itself a partition), mapped_domain_mirror (F(Omega)), '
+             'getBoundary_spec / domain_getBoundary_spec (Gamma numbering, ValueError cases), subdomain_spec (by loop invariants: '
+             'the sub-domain is the selected patches with the connections among them, every other face boundary), corners_simple / '
+             'corners_chain (all layouts without doubly joined corners, all chains and rings: one two-corner group per interface '
+             'end). Tied to the code by a differential run on random lattice layouts (join, lookups, sub-domains, corners, '
+             'F(Omega), malformed inputs with their exception classes) and checked by an independent lattice-geometry oracle.',
+        note='Trusted: Lean kernel (+propext/Classical.choice/Quot.sound), the correspondence harness. Identity of sympde objects '
+             'is identity of names (C12): every theorem assumes pairwise different patch names (and |-free names for grids). The '
+             'swap branch of join (second connection between the same ordered patch pair) and self-connections are outside the '
+             'theorem hypotheses (correspondence only). Corner groups with three or more members (interior / T vertices of 2D grids: '
+             'goal corners_grid) are covered by correspondence + oracle, not by a theorem. Union sorting is modelled (stable '
+             'insertion sort by str) but theorems are stated up to permutation.',
+        technique='Lean 4 proof by induction over connection / patch lists and loop invariants + differential correspondence',
+        design='6/C13'),
     'C14': dict(
         text='Lean 4 theorems over ALL argument lists of the Union model (Model/Union.lean: None filtering, type and dimension '
              'checks, flattening, set + sort by str, degenerate cases; complement; render; iteration as a world of independent '
@@ -117,6 +140,78 @@ CHECKS['C18'] = dict(
          'on the caller\'s object is filed under C12. One defect repaired (commit 0e602cd: u.n refused on Hdiv/Hcurl/L2).',
     technique='Lean 4 proof by case analysis on the left-hand-side shapes and induction on the condition list + differential correspondence',
     design='6/C18')
+
+CHECKS['C17'] = dict(
+    text='Lean 4 theorems about a model (Model/Atoms.lean, over the shared expression AST) of SymbolicExpr.eval and of '
+         'find/sort_partial_derivatives, get_index_(logical_)derivatives(_atom), get_max_(logical_)partial_derivatives: '
+         'symName_order_invariant - derivatives of one kind at the head of a chain may be applied in any order, same '
+         'symbol; symName_pure / symName_atom / symName_blocks - the symbol of a chain (any number of blocks of physical / '
+         'logical derivatives) over a function or vector component is name[_component] followed by one _code per block, '
+         'the code being x^a y^b z^c resp. (x1)^a (x2)^b (x3)^c of the multi-index; symName_injective - under the explicit '
+         'hypothesis Hygienic (no function name is another name followed by a component and/or derivative code) two '
+         'chains get the same name IFF function, component and all multi-indices coincide; hygiene_needed (the '
+         'hypothesis is necessary), prefixFree_hygienic (decidable sufficient condition), collision_u_x / collision_F_0 '
+         '(counterexample theorems of the two open findings); symbolic_hom - commutes with sums, products, powers (base '
+         'and exponent), matrices, tuples, elementary functions; maxOrders_eq_true(_for) / maxOrders_ge_true - for '
+         'every kernel whose chains are applied to functions or components, the reported maximal order per direction, '
+         'overall or for one function, physical or logical, EQUALS the true maximum defined independently by a full '
+         'traversal (inside functions, exponents, matrices, through blocks of the other kind). Tied to the code by a '
+         'differential run on random kernels (SymbolicExpr, sort_partial_derivatives, get_index_*_atom, get_max_*) '
+         'and an oracle that re-traverses the real tree and compares symbols of pools of chains pairwise.',
+    note='Four defects repaired (commits 53c782f, 6f3e6bc, cc04533, 4a16dc0: chains inside functions/exponents/matrices '
+         'ignored; mixed chains attributed to no function; exponents not converted; outer block of a mixed chain dropped '
+         'from the name); two open findings (un-hygienic names u_x, F_0). Trusted: Lean kernel '
+         '(+propext/Classical.choice/Quot.sound), the harness and shared serialiser, sympy Add/Mul/Pow canonicalisation of '
+         'the model output; functions are identified by name (and space kind in the model); interface operators '
+         '(minus/plus), mapping components and unevaluated derivatives of non-functions are outside the fragment (`canon`).',
+    technique='Lean 4 proof by (mutual) structural induction on chains and expression trees + differential correspondence',
+    design='6/C17')
+
+CHECKS['C01'] = dict(
+    text='The component formulas of all dimension-specific classes ({Grad,Curl,Rot,Div,Laplace,Hessian,Bracket}_{1,2,3}d, '
+         'their Logical variants, {Dot,Cross,Inner}_{1,2,3}d) are regenerated from the current source on every run by '
+         'executing the real classes on generic atoms (Gen/Leaf.lean), and for each well-typed entry a Lean theorem '
+         '(Gen/LeafThms.lean, leaf_<Class>_<sig>, 68 theorems) proves that the formula equals the classical component '
+         'definition (Sem/DenG.lean) in every differential ring, i.e. for all smooth functions and points; fragment_total '
+         'proves that no entry of the supported fragment is missing or raises. The recursive dispatcher of '
+         'TerminalExpr.eval is modelled (Model/Lower.lean, using the generated table) and tied to the code by a '
+         'differential run on random well-typed trees in dimensions 1-3 on mapped and unmapped domains; an independent '
+         'oracle compares the lowered expression, instantiated with explicit functions, with the classical definition. '
+         'The induction lower_sound over all trees is not yet proved (growth item): the for-all-trees part rests on the '
+         'correspondence.',
+    note='Trusted: Lean kernel; the translator (generic execution yields the formula for every argument of that shape: '
+         're-checked on compound arguments by the correspondence); classical definitions in Sem/DenG.lean with the repo '
+         'convention (grad F)_ij = d_i F_j; sympy Matrix arithmetic is modelled (addV/mulV), not verified.',
+    technique='Lean 4 proofs of regenerated formula tables (translator by generic execution) + differential correspondence',
+    design='6/C01')
+
+CHECKS['C02'] = dict(
+    text='Lean 4 theorems in the classical semantics denG (every differential ring): gradEval_sound — for every scalar '
+         'expression tree (sums, n-ary products with numeric / coordinate / function-bearing / non-commutative factors, '
+         'integer, constant and variable powers) whatever the model of Grad.eval returns denotes the gradient of the '
+         'argument (mutual structural induction, 4-way factor split, product and power rules incl. the log term); rule '
+         'identities curl_grad_zero, div_curl_zero, div_scalar_mul, grad_mul, laplace_mul valid for all argument trees. '
+         'All constructors (Dot/Cross/Inner/Outer/Convect, Grad/Curl/Rot/Div/Laplace/Hessian/Bracket, '
+         'Jump/Avg/Minus/Plus/Dn) are modelled branch for branch (Model/Calc.lean) and tied to the code by a differential '
+         'run on every constructor application of random programs, compared modulo ring axioms and (anti)symmetric '
+         'argument order; an independent oracle instantiates functions explicitly (two-sided for interface operators) '
+         'and compares with the literal meaning. Soundness theorems of the other constructor models are growth items.',
+    note='Trusted: Lean kernel; classical definitions (Sem/DenG.lean); sympy canonicalisation used to compare model and '
+         'implementation modulo ring axioms; restrictions to the sides of an interface are ring homomorphisms (oracle).',
+    technique='Lean 4 proof by mutual structural induction (differential-ring semantics) + differential correspondence',
+    design='6/C02')
+
+CHECKS['C11'] = dict(
+    text='Lean 4 theorems: the generic integrand assembled by Norm / SemiNorm for kinds l2, h1, h2 and scalar or vector '
+         'arguments denotes exactly the classical Sobolev integrand (sum of squares of the components, of all first and '
+         'of all second derivatives — Frobenius norms) in every differential ring and dimension '
+         '(norm_integrand_scalar, norm_integrand_vector_{l2,h1,h2}, seminorm_integrand_vector_{h1,h2}). The lowered '
+         'kernel computed by the model (assembly + Model/Lower.lean + regenerated leaf table) is compared with '
+         'TerminalExpr(Norm(...)) on random error expressions, dims 1-3; the oracle compares the real kernel, '
+         'instantiated, with the explicit Sobolev formula.',
+    note='Trusted: Lean kernel; that lowering preserves meaning is C01/C02; LogicalExpr of a Norm is covered by C03/C04.',
+    technique='Lean 4 proof (classical semantics) + differential correspondence',
+    design='6/C11')
 
 NOT_YET = 'check not built yet in this round (design in DESIGN.md section 6); will be claimed when its model, theorems and correspondence exist'
 
